@@ -84,9 +84,10 @@ class World(object):
 
     def __init__(self, cfg, raising):
         from traits.api import Undefined
+        import numpy
         self.cfg = cfg
         self.tok2obj = {"v1": tuple([1, 2]), "v1e": tuple([1, 2]), "v2": tuple([3]), "nanA": float("nan"),
-                        "nanB": float("nan"), "er": ErVal(), "none": None, "dflt": DFLT, "bad": BAD, "undef": Undefined}
+                        "nanB": float("nan"), "er": ErVal(), "arrA": numpy.array([1, 2]), "arrB": numpy.array([1, 2]), "none": None, "dflt": DFLT, "bad": BAD, "undef": Undefined}
         assert self.tok2obj["v1"] is not self.tok2obj["v1e"] and self.tok2obj["nanA"] is not self.tok2obj["nanB"]
         self.id2tok = {id(o): t for t, o in self.tok2obj.items()}
         cls = get_class(cfg)
@@ -163,7 +164,7 @@ def case_fn(st, rep):
 def history_lines(seed, ntraces, steps):
     rnd = random.Random(seed)
     out = []
-    toks = ["v1", "v1e", "v2", "nanA", "nanB", "er", "none", "dflt", "bad"]
+    toks = ["v1", "v1e", "v2", "nanA", "nanB", "er", "arrA", "arrB", "none", "dflt", "bad"]
     for t in range(ntraces):
         cfg = {"mode": rnd.choice(["none", "identity", "equality"]), "kind": "trait" if rnd.random() < 0.85 else "event",
                "typed": rnd.random() < 0.5}
